@@ -5,6 +5,7 @@ package govc
 import (
 	"sort"
 	"strconv"
+	"strings"
 
 	"golang.org/x/tools/go/ssa"
 )
@@ -280,4 +281,84 @@ func buildVGraph(fn *ssa.Function, c *Contract) *vgraph {
 		g.nodes = append(g.nodes, order[i])
 	}
 	return g
+}
+
+// restrictToRegion makes the block containing the k-th call (source order) to a function whose
+// name ends in the given suffix ("callee" or "callee#k") the entry of the virtual graph.
+func (fr *Frame) restrictToRegion(spec string) {
+	name, ord := spec, 0
+	if h := strings.Index(spec, "#"); h >= 0 {
+		name = spec[:h]
+		ord, _ = strconv.Atoi(spec[h+1:])
+	}
+	var target *ssa.BasicBlock
+	seen := 0
+	for _, b := range fr.fn.Blocks {
+		for _, in := range b.Instrs {
+			c, ok := in.(*ssa.Call)
+			if !ok {
+				continue
+			}
+			cn := ""
+			if f := c.Common().StaticCallee(); f != nil {
+				cn = f.String()
+			} else if c.Common().IsInvoke() {
+				cn = c.Common().Method.FullName()
+			}
+			if cn != "" && strings.HasSuffix(cn, name) {
+				if seen == ord && target == nil {
+					target = b
+				}
+				seen++
+			}
+		}
+	}
+	if target == nil {
+		panic(staleErr{"region from " + spec + ": no such call in " + fr.fn.String()})
+	}
+	var entry *vnode
+	for _, n := range fr.g.nodes {
+		if n.b == target && n.kind == nkNormal {
+			if entry != nil || n.cut {
+				bail("region start inside a loop or unfolded graph in %s", fr.fn)
+			}
+			entry = n
+		}
+	}
+	if entry == nil {
+		bail("region start not found in graph of %s", fr.fn)
+	}
+	for _, li := range fr.g.loops {
+		if li.body[target] {
+			bail("region start inside a loop in %s", fr.fn)
+		}
+	}
+	keep := map[*vnode]bool{entry: true}
+	work := []*vnode{entry}
+	for len(work) > 0 {
+		n := work[len(work)-1]
+		work = work[:len(work)-1]
+		for _, e := range n.succs {
+			if !keep[e.to] {
+				keep[e.to] = true
+				work = append(work, e.to)
+			}
+		}
+	}
+	var nodes []*vnode
+	for _, n := range fr.g.nodes {
+		if !keep[n] {
+			continue
+		}
+		var ps []*vedge
+		for _, e := range n.preds {
+			if keep[e.from] && n != entry {
+				ps = append(ps, e)
+			}
+		}
+		n.preds = ps
+		nodes = append(nodes, n)
+	}
+	fr.g.nodes = nodes
+	fr.g.entry = entry
 }
